@@ -61,6 +61,30 @@ bool decode_query(const Bytes &dgram, const std::string &domain, Query &q, std::
 	return true;
 }
 
+bool query_ack(const Query &q, QAck &a)
+{
+	a = QAck();
+	if (!q.ok || q.data.size() < 2) return false;
+	char c = q.cmd;
+	if (c == 'p' || c == 'P') {
+		Bytes b = ref::codec_decode(0, q.rest, true);
+		if (b.size() < 4) return false;
+		a.is_ping = true; a.user = (int)(int8_t)b[0]; a.dn_seq = (b[1] >> 4) & 7; a.dn_frag = b[1] & 15;
+		return true;
+	}
+	int code = -1;
+	if (c >= '0' && c <= '9') code = c - '0';
+	else if (c >= 'a' && c <= 'f') code = c - 'a' + 10;
+	else if (c >= 'A' && c <= 'F') code = c - 'A' + 10;
+	if (code < 0 || q.data.size() < 6) return false;
+	int v1 = ref::b32_value((unsigned char)q.data[1]), v2 = ref::b32_value((unsigned char)q.data[2]), v3 = ref::b32_value((unsigned char)q.data[3]);
+	if (v1 < 0 || v2 < 0 || v3 < 0) return false;
+	a.is_data = true; a.user = code;
+	a.up_seq = (v1 >> 2) & 7; a.up_frag = ((v1 & 3) << 2) | ((v2 >> 3) & 3);
+	a.dn_seq = v2 & 7; a.dn_frag = v3 >> 1; a.last = v3 & 1;
+	return true;
+}
+
 static bool decode_hostname(const std::string &host, char *prefix, Bytes &out, std::string &err)
 {
 	// "<prefix><encoded with dots>.<xy>"
